@@ -268,13 +268,24 @@ def analyse(gm, fn, kind, role):
                     # admission: what is known about the counter's current value?
                     need = None
                     granted = []
+                    def zero_form(c, truth):
+                        """(X, X is known zero) for conditions of the forms X == 0, X != 0, !X, X, nested"""
+                        if c[0] == "cmp" and c[3] == C(0) and c[1] in ("==", "!="):
+                            x, z = c[2], (c[1] == "==") == bool(truth)
+                        elif c[0] == "un" and c[1] == "!":
+                            x, z = c[2], bool(truth)
+                        else:
+                            x, z = c, not truth
+                        while isinstance(x, tuple) and x and x[0] == "un" and x[1] == "!":
+                            x, z = x[2], not z
+                        if isinstance(x, tuple) and x and x[0] == "cmp" and x[3] == C(0) and x[1] in ("==", "!="):
+                            return zero_form(x, not z) if False else zero_form(x, (not z))
+                        return x, z
                     for (c, truth) in st.conds:
-                        if c[0] != "cmp" or c[3] != C(0):
-                            continue
-                        bb, mm, ss = classify_count(c[2])
+                        x_, zero = zero_form(c, truth)
+                        bb, mm, ss = classify_count(x_)
                         if bb != prev:
                             continue
-                        zero = (c[1] == "==" and truth) or (c[1] == "!=" and not truth)
                         if zero:
                             granted.append(mm)
                     out["admissions"].append((m, s, d if d is not None else ("set", v), tuple(granted), line(node)))
